@@ -15,7 +15,7 @@ import sys
 import time
 import traceback
 
-VERIF = "/verif"
+VERIF = os.environ.get("VERIF_HOME", "/verif")
 REPO = os.environ.get("VERIF_REPO", "/repo")
 KNOWN_FINDINGS_FILE = os.path.join(VERIF, "known_findings.json")
 NPROC = int(os.environ.get("VERIF_NPROC", "16"))
